@@ -49,6 +49,19 @@ VARIANTS = [
     ("C02", D, '        self.add_func("jacobian", self.get_jacobian_eqn, oT="mat")', '        self.add_func("jacobian", self.get_jacobian_eqn)', "R-SHAPE"),
     ("C02", U, "            return r.y.copy()\n", "            out = np.array(r.y)\n            return out\n", None),
     ("C02", U, "    solution = list()", "    solution = []", None),
+    # time-first twins and call sites, decided by calling them (rules/pairx.py)
+    ("C02", D, "    def ode_T(self, t, state):", "    def ode_T(self, tt, state, t=None):\n        t = tt", None),
+    ("C02", D, "        return self.forwardforward(ff, t, state, s)", "        return self.forwardforward(s=s, state=state, t=t, ff=ff)", None),
+    ("C02", D, "        return self.forwardforward(ff, t, state, s)", "        return self.forwardforward(ff, t, s, state)", "R-FWD"),
+    ("C02", D, "        return self.sensitivity(sens, t, state, by_state)", "        return self.sensitivity(sens, t, state)", "R-FWD"),
+    ("C02", D, "        return self.sensitivity(sens, t, state, by_state)", "        return self.sensitivity(sens, t, state, by_state=bool(by_state))", None),
+    ("C02", D, "        return self.ode_and_sensitivity(state_param, t, by_state)", "        if by_state:\n            return self.ode_and_sensitivity(state_param, t, True)\n        return np.append(self.ode(state_param[:self.num_state], t), self.sensitivity(state_param[self.num_state:], t, state_param[:self.num_state]))", None),
+    ("C02", D, "        return self.ode_and_sensitivity(state_param, t, by_state)", "        if by_state:\n            return self.ode_and_sensitivity(state_param, t, True)\n        return np.append(self.ode(state_param[:self.num_state], t), self.sensitivity(state_param[self.num_state:], t, state_param[:self.num_state], True))", "R-FWD"),
+    ("C02", L, "        solution = ode_utils.integrateFuncJac(self._ode.ode_T,\n                                              self._ode.jacobian_T,", "        model = self._ode\n        solution = ode_utils.integrateFuncJac(lambda t, y: model.ode(y, t),\n                                              lambda t, y: model.jacobian(y, t),", None),
+    ("C02", L, "        solution = ode_utils.integrateFuncJac(self._ode.ode_T,\n                                              self._ode.jacobian_T,", "        model = self._ode\n        solution = ode_utils.integrateFuncJac(lambda t, y: model.ode(t, y),\n                                              lambda t, y: model.jacobian(y, t),", "R-PAIRFJ"),
+    ("C02", L, "            s_iv = f(self._ode.ode_and_sensitivityIV_T,\n                     self._ode.ode_and_sensitivityIV_jacobian_T,", "            s_iv = f(self._ode.ode_and_sensitivityIV_T,\n                     self._ode.ode_and_sensitivity_jacobian_T,", "R-PAIRFJ"),
+    ("C02", L, "        s_out_all = f(self._ode.ode_and_forwardforward_T,\n                      self._ode.ode_and_forwardforward_jacobian_T,", "        rhs, drhs = self._ode.ode_and_forwardforward_T, self._ode.ode_and_forwardforward_jacobian_T\n        s_out_all = f(rhs,\n                      drhs,", None),
+    ("C02", L, "        s_out_all = f(self._ode.ode_and_forwardforward_T,\n                      self._ode.ode_and_forwardforward_jacobian_T,", "        s_out_all = f(self._ode.ode_and_forwardforward,\n                      self._ode.ode_and_forwardforward_jacobian,", "R-PAIRFJ"),
     # ------------------------------------------------------------------ C03
     ("C03", D, "                self._Grad[i,j] = eqn", "                self._Grad[j % self.num_state,i % self.num_param] = eqn", "R-DERIV"),
     ("C03", D, "                    z = k*self.num_state + i", "                    z = i*self.num_param + k", "R-DERIV"),
@@ -94,6 +107,11 @@ VARIANTS = [
     ("C08", D, "if not hasattr(self, compiled_obj_name) or getattr(self._hasNewTransition, method_name):", "if not hasattr(self, compiled_obj_name):", "R-GUARD"),
     ("C08", B, "                self._odeList.append(eqn)\n                self._hasNewTransition.trip()", "                self._odeList.append(eqn)", "R-TRIP"),
     ("C08", D, "    @property\n    def _SAUtil(self):", "    @property\n    def _SAUtil_unused(self):", None),
+    # writes through a local alias of the definition lists (C08.local_aliases)
+    ("C08", B, "                self._odeList.append(eqn)\n                self._hasNewTransition.trip()", "                for target, item in ((self._odeList, eqn),):\n                    target.append(item)\n                self._hasNewTransition.trip()", None),
+    ("C08", B, "                self._odeList.append(eqn)\n                self._hasNewTransition.trip()", "                for target, item in ((self._odeList, eqn),):\n                    target.append(item)", "R-TRIP"),
+    ("C08", B, "                self._odeList.append(eqn)\n                self._hasNewTransition.trip()", "                terms = self._odeList\n                terms += [eqn]", "R-TRIP"),
+    ("C08", B, "                self._odeList.append(eqn)\n                self._hasNewTransition.trip()", "                terms = list(self._odeList)\n                terms.append(eqn)\n                self._odeList = terms\n                self._hasNewTransition.trip()", None),
     # ------------------------------------------------------------------ C09
     ("C09", B, "                            index_temp = f(parameters[i][0])\n                            value_temp = parameters[i][1]", "                            index_temp = f(parameters[i][0])\n                            value_temp = parameters[-i][1]", "R-KV"),
     ("C09", B, '                if hasattr(self, "_parameters"):\n                    param_out = self._parameters', "                if False:\n                    param_out = self._parameters", "R-KEEP"),
